@@ -187,6 +187,8 @@ var c01Bundles = map[string]c01Bundle{
 	// complete structures in one node (multi-page on the small geometries)
 	"full-table-coll": {tag: "table", decl: "border-collapse:collapse;width:100%", rules: `%s td,%s th{border:2px solid red;padding:1px}%s thead{display:table-header-group}%s tfoot{display:table-footer-group}`,
 		inner: `<thead><tr><th>h a</th><th>h b</th></tr></thead><tfoot><tr><td colspan="2">foot</td></tr></tfoot><tbody><tr><td>r1 a</td><td>r1 b</td></tr><tr><td>r2 a</td><td>r2 b</td></tr><tr><td>r3 a</td><td>r3 b</td></tr><tr><td>r4 a</td><td>r4 b</td></tr><tr><td>r5 a</td><td>r5 b</td></tr><tr><td>r6 a</td><td>r6 b</td></tr><tr><td>r7 a</td><td>r7 b</td></tr><tr><td>r8 a</td><td>r8 b</td></tr><tr><td rowspan="2">rs</td><td>x</td></tr><tr><td>y</td></tr></tbody>`, void: true},
+	"full-table-head": {tag: "table", decl: "border-collapse:collapse", rules: `%s td,%s th{border:2px solid black;padding:0}`,
+		inner: `<thead><tr><th>h</th></tr></thead><tbody><tr><td>r1</td></tr><tr><td>r2</td></tr><tr><td>r3</td></tr><tr><td>r4</td></tr><tr><td>r5</td></tr><tr><td>r6</td></tr><tr><td>r7</td></tr><tr><td>r8</td></tr><tr><td>r9</td></tr><tr><td>r10</td></tr><tr><td>r11</td></tr><tr><td>r12</td></tr><tr><td>r13</td></tr><tr><td>r14</td></tr></tbody>`, void: true},
 	"full-table-sep": {tag: "table", decl: "border-spacing:2px 4px;border:1px solid", rules: `%s td{border:1px dotted;vertical-align:bottom}`,
 		inner: `<caption>cap</caption><colgroup><col span="1" style="width:20px"><col></colgroup><thead><tr><th>h a</th><th>h b</th></tr></thead><tbody><tr><td>r1 a</td><td>r1 b</td></tr><tr><td>r2 a</td><td>r2 b</td></tr><tr><td>r3 a</td><td>r3 b</td></tr><tr><td>r4 a</td><td>r4 b</td></tr><tr><td>r5 a</td><td>r5 b</td></tr><tr><td>r6 a</td><td>r6 b</td></tr><tr><td>r7 a</td><td>r7 b</td></tr><tr><td>r8 a</td><td>r8 b</td></tr></tbody>`, void: true},
 	"full-list":      {tag: "ol", attrs: `start="3"`, decl: "list-style:upper-roman outside;margin-left:20px", inner: `<li>item 1</li><li>item 2</li><li>item 3</li><li>item 4</li><li>item 5</li><li>item 6</li><li><ul><li>n1<li>n2</ul></li>`, void: true},
